@@ -33,6 +33,9 @@ pub enum Op {
 	/// the public but "internal detail" control `ContinueTryGracefulRestart` sent directly (C04 only: judged by the
 	/// invariant monitor, the reference model does not describe it)
 	Continue,
+	/// an async spawn hook that suspends for `delay_ms` (virtual) before the spawn: starting takes time, which makes
+	/// "the ticket resolved before its control had run" observable. Scenarios with it are judged by invariants only.
+	SetAsyncHook(u64),
 }
 
 impl Op {
@@ -59,6 +62,7 @@ impl Op {
 			Op::MarkerPrio(1) => "marker_high",
 			Op::MarkerPrio(_) => "marker_urgent",
 			Op::Continue => "continue_try_graceful_restart",
+			Op::SetAsyncHook(_) => "set_spawn_async_hook",
 		}
 	}
 
@@ -82,6 +86,7 @@ impl Op {
 			Op::SetHook(i) => json!({"op": "set_spawn_hook", "id": i}),
 			Op::SetErrH(i) => json!({"op": "set_error_handler", "id": i}),
 			Op::MarkerPrio(p) => json!({"op": "marker", "prio": p}),
+			Op::SetAsyncHook(d) => json!({"op": "set_spawn_async_hook", "delay_ms": d}),
 			other => json!({"op": other.name()}),
 		}
 	}
@@ -109,6 +114,7 @@ impl Op {
 			"unset_error_handler" => Op::UnsetErrH,
 			"marker" => Op::MarkerPrio(v["prio"].as_u64().unwrap_or(0) as u8),
 			"continue_try_graceful_restart" => Op::Continue,
+			"set_spawn_async_hook" => Op::SetAsyncHook(v["delay_ms"].as_u64().unwrap_or(3)),
 			_ => return None,
 		})
 	}
